@@ -11,7 +11,9 @@
 (*           diffname (import "m/go-bar" whose declared name is bar,       *)
 (*           qualifier bar), alias (import x "m/d", qualifier x),          *)
 (*           selfname (qualifier u = the current package's own name, bound *)
-(*           by no import), unbound (qualifier nope)                       *)
+(*           by no import), unbound (qualifier nope), lastelem (import     *)
+(*           "m/gobar" whose declared name is bar, qualifier gobar = the   *)
+(*           last path element, which Go does not bind)                    *)
 (*   ikind   what the name I denotes there: iface / nonIface / absent      *)
 (*   cptr    the contract is &I (method set of *T) or I (method set of T)  *)
 (*   recv    receiver of T's method M: value / pointer / none (no method)  *)
@@ -32,7 +34,9 @@
 (* CurrentPkgName (every import is recorded under the current package's    *)
 (* name - D10/D11), SharedImports (the import table is shared by the files *)
 (* of a package), OwnPkgLookup (methods are looked up under the package of *)
-(* the annotated type: unexported methods of other packages are missed).   *)
+(* the annotated type: unexported methods of other packages are missed),   *)
+(* PathElemBinds (an import is also found under the last element of its    *)
+(* path although its declared name differs - known finding KF1).           *)
 (***************************************************************************)
 EXTENDS Integers, Sequences, FiniteSets, TLC, Json
 
@@ -63,7 +67,7 @@ ITerms == TermNames \ {"A"}
 PlainTerms == {"int", "string", "byte", "uint8", "error", "any", "interface{}", "*int", "**int", "[]int", "[]byte", "[]uint8",
                "map[string]int", "chan int", "func(int) string"}
 
-Quals == {"none", "declared", "diffname", "alias", "selfname", "unbound"}
+Quals == {"none", "declared", "diffname", "alias", "selfname", "unbound", "lastelem"}
 
 \* sib = "binds": an earlier file of the same package imports, under the qualifier's name, a package that has no I
 \* (imports are file-scoped: the annotated file's own imports decide)
@@ -114,7 +118,8 @@ L1(s) == IF ~Bound(s.qual) THEN <<"IMPL01", {}>>
 \* the import table of the file: an import is found under its explicit alias, else under the imported package's declared name
 ResolveQualifier ==
   /\ ph = "resolve"
-  /\ bound' = IF "SharedImports" \in Deviations /\ sc.sib = "binds" THEN TRUE       \* the earlier file's binding is found first
+  /\ bound' = IF "PathElemBinds" \in Deviations /\ sc.qual = "lastelem" THEN TRUE   \* fallback: the qualifier matches the last path element
+              ELSE IF "SharedImports" \in Deviations /\ sc.sib = "binds" THEN TRUE       \* the earlier file's binding is found first
               ELSE IF "CurrentPkgName" \in Deviations
                 THEN (CASE sc.qual = "none" -> TRUE
                         [] sc.qual \in {"declared", "alias"} -> TRUE       \* alias / last path element still match
@@ -173,6 +178,10 @@ Pinned(s) ==
       miss == (IF ok THEN {} ELSE {"M"}) \cup (IF s.two THEN {"Extra"} ELSE {})
   IN IF ~b THEN <<"IMPL01", {}>> ELSE IF ~f THEN <<"IMPL02", {}>> ELSE IF miss = {} THEN <<"none", {}>> ELSE <<"IMPL03", miss>>
 
+\* KF1: what the implementation answers when the last path element is taken as a binding
+KF1(s) == IF s.ikind # "iface" THEN <<"IMPL02", {}>> ELSE IF Missing(s) = {} THEN <<"none", {}>> ELSE <<"IMPL03", Missing(s)>>
+
 EmitInv == (Emit /\ Done) =>
-   PrintT("@E " \o ToJson([sc |-> sc, code |-> L1(sc)[1], missing |-> L1(sc)[2], pinned_code |-> Pinned(sc)[1], pinned_missing |-> Pinned(sc)[2]]))
+   PrintT("@E " \o ToJson([sc |-> sc, code |-> L1(sc)[1], missing |-> L1(sc)[2], pinned_code |-> Pinned(sc)[1], pinned_missing |-> Pinned(sc)[2],
+                            kf1_code |-> KF1(sc)[1], kf1_missing |-> KF1(sc)[2]]))
 =============================================================================
